@@ -574,9 +574,13 @@ def competition_summary(comp: "Competition") -> dict:
         if e.loops:
             nl = node_loop(w.loops[e.loops[-1]])
             dom = ("all", show(nl[0])) if nl is not None else show(w.loops[e.loops[-1]].domain)
+        # (a queue built in this call starts with cost = FLOAT_MAX everywhere - heap rule H-init - so storing that value
+        # again for the nodes that are not seeded says nothing)
+        fresh = comp.heap[0] == "new"
         stores = sorted(
             (show(rewrite(x.target, f)), show(rewrite(x.value, f)), tuple(sorted(show(rewrite(g, f)) for g in facts(x.guards))))
-            for x in before if x.kind == "store" and x.loops == e.loops and x.seq > (w.loops[e.loops[-1]].first_seq - 1 if e.loops else 0))
+            for x in before if x.kind == "store" and x.loops == e.loops and x.seq > (w.loops[e.loops[-1]].first_seq - 1 if e.loops else 0)
+            and not (fresh and x.value == ("K", "FLOAT_MAX") and x.target[0] == "idx" and x.target[1] == ("attr", comp.heap, "cost")))
         seeds.append((dom, tuple(sorted(show(rewrite(g, f)) for g in facts(e.guards))), tuple(stores)))
     out["seeding"] = seeds
     base = len(facts(comp.loop.guards)) + 1
@@ -598,11 +602,18 @@ def competition_summary(comp: "Competition") -> dict:
             "domain": (dom[0], show(dom[1]) if dom[1] is not None else None),
             "candidate": show(rewrite(u.value, f)),
             "acceptance": acc[1] if acc else None,
-            "guards": tuple(sorted(show(rewrite(g if pol else mk_not(g), f)) for g, pol in u.inner_guards)),
+            # (an exit taken once every node has left the queue restricts nothing: rules_ift.classify_guard proves it exact)
+            "guards": tuple(sorted(show(rewrite(g if pol else mk_not(g), f)) for g, pol in u.inner_guards
+                                   if not _is_all_settled(comp, u, g, pol))),
             "stores": tuple(sorted((show(rewrite(e.target, f)), show(rewrite(e.value, f))) for e in branch)),
         })
     out["sites"] = sites
     return out
+
+
+def _is_all_settled(comp, u, g, pol) -> bool:
+    from .rules_ift import classify_guard
+    return classify_guard(comp, u, g, pol, None).endswith("(all settled)")
 
 
 def resolve_on(t: Term, key: Term, value) -> Optional[Term]:
